@@ -357,6 +357,13 @@ def _extra_query(shape, vars_, V1):
         return an(entity(x, x.a)), lambda r: [r.ident]
     if name == "andtruthy":
         return an(entity(x, and_(x.a, x.a <= shape[1]))), lambda r: [r.ident]
+    if name == "rule_noadd":      # only the refinement concludes: base rows whose refinement fails deliver nothing
+        views = inference(V1)()
+        q = an(entity(views, x.a >= shape[1]))
+        with q:
+            with refinement(x.a >= shape[2]):
+                Add(views, inference(V1)(p=x, tag=1))
+        return q, lambda r: [r.tag, r.p.ident]
     if name == "rule":
         views = inference(V1)()
         q = an(entity(views, x.a >= shape[1]))
@@ -887,7 +894,7 @@ def gen_extra_cases(tier, rng) -> List[dict]:
         W_, A_ = gen_world(rng, nvars, 3)
         shapes = []
         for _ in range(rng.randint(1, 2)):
-            k = rng.choice(["or", "not", "or2", "andnot", "rule", "truthy", "andtruthy"] + QUANT_SHAPES)
+            k = rng.choice(["or", "not", "or2", "andnot", "rule", "rule_noadd", "truthy", "andtruthy"] + QUANT_SHAPES)
             shapes.append([k, rng.randint(0, 3), rng.randint(0, 3)])
         its = [rng.randint(0, len(shapes) - 1) for _ in range(rng.randint(2, 3))]
         style = rng.choice(["random", "sequential", "sequential"])
@@ -899,9 +906,19 @@ def gen_extra_cases(tier, rng) -> List[dict]:
         else:
             for k in range(rng.randint(4, 12)):
                 ops.append(["X", rng.randint(0, len(its) - 1)] if rng.chance(0.1) else ["N", rng.randint(0, len(its) - 1)])
-        warm = rng.chance(0.4) and not any(s_[0] == "rule" for s_ in shapes)
+        warm = rng.chance(0.4) and not any(s_[0] in ("rule", "rule_noadd") for s_ in shapes)
         out.append({"kind": "extra", "W": W_, "A": A_, "shapes": shapes, "its": its, "ops": ops, "warm": warm,
                     "src": "extra-" + style + ("-warm" if warm else "")})
+    # an iterator of a rule query abandoned at a row (close / del), then the SAME object evaluated again, twice: the conclusions
+    # selected for the abandoned row must not leak into the next evaluation (krrood 23d12cd; deterministic with rule_noadd:
+    # the leaked conclusion makes the first base row appear although its refinement does not hold)
+    Wl, Al = [[10, 11, 12, 13]], [[10, 0], [11, 1], [12, 2], [13, 3]]
+    for k in ("rule_noadd", "rule"):
+        for c1 in (0, 1):
+            for c2 in (1, 2, 3):
+                for n_before in (1, 2, 3):
+                    out.append({"kind": "extra", "W": Wl, "A": Al, "shapes": [[k, c1, c2]], "its": [0, 0, 0],
+                                "ops": [["N", 0]] * n_before + [["X", 0]] + [["N", 1]] * 5 + [["N", 2]] * 5, "src": "extra-abandon-leak"})
     # after one complete warm-up evaluation: every interleaving of two (three) further evaluations of the SAME query object,
     # for every quantifier / connective shape: nested loops, lock-step and suspended-then-resumed are all among the words
     worlds = [([[10, 11, 12], [20, 21, 22]], [[10, 0], [11, 1], [12, 2], [20, 0], [21, 1], [22, 3]]),
@@ -973,8 +990,8 @@ def extra_verdict(d, impl) -> Tuple[str, Any]:
         errs = [r for r in got[i] if isinstance(r, int) and r != STOP]
         if any(e != ERR_RT for e in errs):
             return "violation", exp
-        is_rule = d["shapes"][d["its"][i]][0] == "rule"
-        if is_rule and same_object_overlap(d["its"], d["ops"], log, lambda qi: d["shapes"][qi][0] == "rule"):
+        is_rule = d["shapes"][d["its"][i]][0] in ("rule", "rule_noadd")
+        if is_rule and same_object_overlap(d["its"], d["ops"], log, lambda qi: d["shapes"][qi][0] in ("rule", "rule_noadd")):
             ids = {r[1] for r in iso[i] if isinstance(r, list)}
             if all(len(r) == 2 and r[0] in (0, 1) and r[1] in ids for r in rows):
                 classes.add("K_rule_interleave")
@@ -1150,6 +1167,14 @@ def run(tier: str, seed: int, replay=None) -> int:
             got = run_impl(w["case"])
         except Exception as e:  # noqa
             rep.oblige(f"witness:{f.fid}", False, f"{f.witness}: {e}")
+            continue
+        if w["case"]["kind"] == "extra":
+            # no Coq Spec for these shapes: the witness must give the isolated result of a fresh query
+            verdict, exp = extra_verdict(w["case"], got)
+            if f.kind == "open" and verdict != "ok":
+                rep.known(f)
+            elif f.kind != "open" and verdict != "ok":
+                bad.append((w["case"], got, f"regression of fixed finding {f.fid}: expected {exp}"))
             continue
         if f.kind == "open":
             if got == w["impl_recorded"] and got != w["spec"]:
